@@ -31,6 +31,17 @@ def model(rep, quick):
     wrr = dict(Threads="<- ThreadsWRR", Program="<- ProgWRR", Fields="<- F2" if quick else "<- F3", Writes="<- WritesW")
     for name, c in (("mc_wwr_guarded", dict(base, Shape="<- ShapeAllGuarded")), ("mc_wrr_guarded", dict(wrr, Shape="<- ShapeAllGuarded"))):
         vlib.mc(rep, "MC_Concurrent.tla", c, name, INV, view=None, actions=["Step"])
+    # nested locking of the composed objects: deadlock freedom and a consistent nesting order in every interleaving;
+    # a deviation that nests two mutexes in opposite orders must deadlock in the model
+    lo = dict(Threads="<- T3", Program="<- Prog", Nesting="<- NestAsDesigned")
+    cfg = vlib.write_cfg("c19_lockorder", lo, ["OrderConsistent"], deadlock=True)
+    r = vlib.need_ok(vlib.tlc("MC_LockOrder.tla", cfg, workers=4, timeout=600, coverage=True), "lockorder")
+    rep.add_tlc("mc_lockorder", r)
+    cfg = vlib.write_cfg("c19_lockorder_inv", dict(lo, Nesting="<- NestInverted"), ["OrderConsistent"], deadlock=True)
+    r = vlib.tlc("MC_LockOrder.tla", cfg, workers=4, timeout=600)
+    if r.violated not in ("deadlock", "OrderConsistent"):
+        raise vlib.Infra("vacuity: inverted lock nesting neither deadlocks nor breaks OrderConsistent in the model (%s)" % r.violated)
+    rep.extra.setdefault("deviations_rejected_by_model", []).append("NestInverted -> %s" % r.violated)
     for dev, inv in (("ShapeBareWrite", "RaceFree"), ("ShapeBareRead", "RaceFree"), ("ShapeByRefRead", "RaceFree"),
                      ("ShapeByRefRead", "CopyCoherent"), ("ShapeSplitWrite", "QuiescentCoherent")):
         cfg = vlib.write_cfg("c19_dev_%s_%s" % (dev, inv), dict(base, Shape="<- " + dev), [inv])
